@@ -226,6 +226,9 @@ static void ghost_copy(u8 *d, u8 const *s, size_t n)
         __CPROVER_assert(s == g_lit && n == g_ll, "protocol: literal copy = exactly the parsed literal run");
         g_phase = 2;
     } else if (g_phase == 1 || g_phase == 2) {
+        /* vacuity guard of the unit, on its deepest path: inside the loop (whose body ends in assume(false) under the loop
+           contract, so no flag can be carried to the end of the harness), a literal copy followed by the match copy */
+        if (g_phase == 2) CANARY();
         __CPROVER_assert(SAME(s, d) && g_dist >= 1 && (size_t)g_dist <= g_op && OFF(d) - OFF(s) == (long)g_dist && n == g_ml,
                          "protocol: match copy = match_len bytes from match_dist back, inside the data produced so far");
         g_phase = 0; g_nseq++;
@@ -396,7 +399,7 @@ void h_lz4(void)
     g_phase = 0; g_op = 0; g_nseq = 0;
     int r = lz4_decompress(buf + PAD, w_in_n, out, w_out_n);
     if (r >= 0) __CPROVER_assert(g_phase == 4 && (size_t)r == g_op, "success: the block was decoded up to and including the final literals and the result is the number of bytes the copy program produced");
-    if (r > 0 && g_nseq >= 1) CANARY();                                /* vacuity guard on the deepest path: a block with at least one match decoded successfully */
+    /* the unit's CANARY is inside the loop body (ghost_copy); that the exit path with r > 0 is reachable was checked once by hand (cover run, see report) */
 }
 #endif
 
